@@ -14,8 +14,18 @@
 // consts.BulkMaxTries times and that no call arrives after StoreDocuments returned.
 //
 // Circuit breakers live in a process-global manager under fixed names (bulk_hot-shard-N,
-// bulk_write-shard-N), so one process runs one StoreDocuments at a time; -workers N starts N child
-// processes.  Breakers are configured never to trip by themselves and are opened/closed explicitly
+// bulk_write-shard-N), so one process runs one StoreDocuments *under test* at a time; -workers N
+// starts N child processes.  A breaker is made to reject in the two ways BulkWrite.tla names
+// (RejectKinds): "open" = forced open, "limit" = MaxConcurrent (1..3, per child) OTHER bulks - real
+// StoreDocuments calls of further SeqDBClients whose shard of the same index shares the breaker - are
+// parked inside it, so that the bulk under test runs into cep21's concurrency limit.
+//
+// The request context (CtxDone of the spec): scripts carry `cancel` = e (the context ends after e-1
+// shard calls; 1 = before StoreDocuments is called) and `ckind` (caller cancels / deadline passes).
+// The first replica call of shard call e-1 waits until the other replica calls of that shard.Bulk
+// have entered, then cancels (or waits for the deadline, which was chosen to lie beyond that point).
+// A replica call that begins on a context that is done behaves like the gRPC stub: error, nothing
+// stored.  The moment the harness makes or first sees the context done is logged (`cancel` line).  Breakers are configured never to trip by themselves and are opened/closed explicitly
 // at epoch boundaries ("forced" scripts); scripts with "natural":true run in children whose breakers
 // have a hair-trigger configuration and are left alone (they trip on the scripted errors and
 // half-open after SleepWindow).
@@ -65,6 +75,12 @@ type Topo struct {
 type TS struct {
 	T string `json:"t"`
 	S int    `json:"s"` // 1-based
+	K string `json:"k"` // why the breaker rejects: "open" | "limit"
+}
+
+type bkey struct {
+	t string
+	s int
 }
 
 type Script struct {
@@ -77,6 +93,8 @@ type Script struct {
 	Real    uint32       `json:"real"` // selects the concrete realisation of err / lost (error value, time-out)
 	Natural bool         `json:"natural"`
 	Reps    int          `json:"reps"`
+	Cancel  int          `json:"cancel"` // 0: the request context stays alive; e >= 1: it ends after e-1 shard calls
+	CKind   string       `json:"ckind"`  // "cancel" | "deadline"
 }
 
 // one line of the trace file; all lines carry all fields (TLC records must be uniform)
@@ -129,8 +147,11 @@ func emit(v any) {
 
 type breakers struct {
 	natural bool
+	maxConc int
 	cfg     circuitbreaker.Config
-	cb      map[TS]*circuitbreaker.CircuitBreaker
+	cb      map[bkey]*circuitbreaker.CircuitBreaker
+	busy    map[bkey]*occupancy
+	probs   []map[string]any // what the parked bulks themselves showed (reported with the current run)
 }
 
 func breakerName(t string, s int) string {
@@ -141,44 +162,159 @@ func breakerName(t string, s int) string {
 	return fmt.Sprintf("bulk_write-shard-%d", s-1)
 }
 
-func newBreakers(natural bool) *breakers {
-	b := &breakers{natural: natural, cb: map[TS]*circuitbreaker.CircuitBreaker{}}
+func newBreakers(natural bool, maxConc int) *breakers {
+	b := &breakers{natural: natural, maxConc: maxConc, cb: map[bkey]*circuitbreaker.CircuitBreaker{}, busy: map[bkey]*occupancy{}}
 	if natural {
 		b.cfg = circuitbreaker.Config{Timeout: breakerTimeout, MaxConcurrent: -1, NumBuckets: 2, BucketWidth: 100 * time.Millisecond,
 			RequestVolumeThreshold: 1, ErrorThresholdPercentage: 1, SleepWindow: 60 * time.Millisecond}
 	} else {
-		b.cfg = circuitbreaker.Config{Timeout: breakerTimeout, MaxConcurrent: -1, NumBuckets: 10, BucketWidth: time.Second,
+		b.cfg = circuitbreaker.Config{Timeout: breakerTimeout, MaxConcurrent: int64(maxConc), NumBuckets: 10, BucketWidth: time.Second,
 			RequestVolumeThreshold: 1 << 40, ErrorThresholdPercentage: 100, SleepWindow: time.Hour}
 	}
 	// the manager returns the same circuit for the same name: these are the ones the client will use
 	for _, t := range []string{"hot", "cold"} {
 		for s := 1; s <= maxS; s++ {
-			b.cb[TS{t, s}] = circuitbreaker.New(breakerName(t, s), b.cfg)
+			b.cb[bkey{t, s}] = circuitbreaker.New(breakerName(t, s), b.cfg)
 		}
 	}
 	return b
 }
 
+// occupancy = MaxConcurrent other bulks parked inside one shard's breaker
+type occupancy struct {
+	release chan struct{}
+	bulks   []*occBulk
+}
+
+type occBulk struct {
+	done     chan error
+	accepted bool // the store of the target shard accepted (set before the call returns)
+}
+
+// occFake is a store of a parked bulk: the store of the target shard holds the call until released and
+// then accepts; the stores of the other shards (lower indexes, needed to get the target's breaker name) fail.
+type occFake struct {
+	storeapi.StoreApiClient
+	target  bool
+	ob      *occBulk
+	parked  chan struct{}
+	release chan struct{}
+}
+
+func (f *occFake) Bulk(ctx context.Context, in *storeapi.BulkRequest, _ ...grpc.CallOption) (*emptypb.Empty, error) {
+	if !f.target {
+		return nil, status.Error(codes.Unavailable, "occupant: not this shard")
+	}
+	select {
+	case f.parked <- struct{}{}:
+	default:
+	}
+	<-f.release
+	f.ob.accepted = true
+	return &emptypb.Empty{}, nil
+}
+
+// occupy parks maxConc real bulks inside breaker k; false if they could not be parked
+func (b *breakers) occupy(k bkey) bool {
+	oc := &occupancy{release: make(chan struct{})}
+	for i := 0; i < b.maxConc; i++ {
+		ob := &occBulk{done: make(chan error, 1)}
+		parked := make(chan struct{}, 1)
+		clients := map[string]storeapi.StoreApiClient{}
+		st := &stores.Stores{Shards: [][]string{}, Vers: []string{}}
+		for s := 1; s <= k.s; s++ {
+			h := fmt.Sprintf("occ%d-%s-%d:9002", i, k.t, s)
+			clients[h] = &occFake{target: s == k.s, ob: ob, parked: parked, release: oc.release}
+			st.Shards = append(st.Shards, []string{h})
+			st.Vers = append(st.Vers, "")
+		}
+		empty := &stores.Stores{Shards: [][]string{}, Vers: []string{}}
+		var cl *bulk.SeqDBClient
+		if k.t == "hot" {
+			cl = bulk.NewSeqDBClient(st, empty, b.cfg, clients)
+		} else {
+			cl = bulk.NewSeqDBClient(empty, st, b.cfg, clients)
+		}
+		go func() { ob.done <- cl.StoreDocuments(context.Background(), 1, []byte("occupant-docs"), []byte("occupant-metas")) }()
+		select {
+		case <-parked:
+			oc.bulks = append(oc.bulks, ob)
+		case err := <-ob.done:
+			// it came back without ever reaching its store
+			if err == nil {
+				b.probs = append(b.probs, map[string]any{"what": "acknowledged without a full replica set (AckSound): a concurrent bulk whose only store was never called",
+					"got": "nil", "exp": "error", "breaker": breakerName(k.t, k.s), "parked_before_it": i, "max_concurrent": b.maxConc})
+			}
+			b.releaseOcc(oc)
+			return false
+		case <-time.After(watchdog):
+			b.probs = append(b.probs, map[string]any{"what": "StoreDocuments did not return (EventuallyAnswers): concurrent bulk neither reached its store nor returned",
+				"breaker": breakerName(k.t, k.s)})
+			b.releaseOcc(oc)
+			return false
+		}
+	}
+	b.busy[k] = oc
+	return true
+}
+
+func (b *breakers) releaseOcc(oc *occupancy) {
+	close(oc.release)
+	for _, ob := range oc.bulks {
+		select {
+		case err := <-ob.done:
+			if err == nil && !ob.accepted {
+				b.probs = append(b.probs, map[string]any{"what": "acknowledged without a full replica set (AckSound): a concurrent (parked) bulk", "got": "nil", "exp": "error"})
+			}
+		case <-time.After(watchdog):
+			b.probs = append(b.probs, map[string]any{"what": "StoreDocuments did not return (EventuallyAnswers): released concurrent bulk"})
+		}
+	}
+}
+
+func (b *breakers) free(k bkey) {
+	if oc := b.busy[k]; oc != nil {
+		delete(b.busy, k)
+		b.releaseOcc(oc)
+	}
+}
+
 func (b *breakers) closeAll() {
-	for _, c := range b.cb {
+	for k, c := range b.cb {
+		b.free(k)
 		c.CloseCircuit()
 	}
 }
 
-// apply makes exactly the breakers of `open` open, leaving `except` (the one executing) alone
-func (b *breakers) apply(open []TS, except TS) {
-	want := map[TS]bool{}
-	for _, x := range open {
-		want[x] = true
-	}
-	for k, c := range b.cb {
-		if k == except {
-			continue
-		}
-		if want[k] {
-			c.OpenCircuit()
+// apply makes exactly the breakers of `want` reject (in the way named), leaving `except` (the one executing) alone
+func (b *breakers) apply(want []TS, except bkey) {
+	open, limit := map[bkey]bool{}, map[bkey]bool{}
+	for _, x := range want {
+		if x.K == "limit" {
+			limit[bkey{x.T, x.S}] = true
 		} else {
-			c.CloseCircuit()
+			open[bkey{x.T, x.S}] = true
+		}
+	}
+	for _, t := range []string{"cold", "hot"} {
+		for s := 1; s <= maxS; s++ {
+			k := bkey{t, s}
+			if k == except {
+				continue
+			}
+			c := b.cb[k]
+			if !limit[k] {
+				b.free(k)
+			}
+			if limit[k] && b.busy[k] == nil {
+				c.CloseCircuit() // the other bulks must get in
+				b.occupy(k)
+			}
+			if open[k] {
+				c.OpenCircuit()
+			} else {
+				c.CloseCircuit()
+			}
 		}
 	}
 }
@@ -191,8 +327,11 @@ func (b *breakers) snapshot(tp Topo) []TS {
 			n = tp.CS
 		}
 		for s := 1; s <= n; s++ {
-			if b.cb[TS{t, s}].IsOpen() {
-				out = append(out, TS{t, s})
+			if b.cb[bkey{t, s}].IsOpen() {
+				out = append(out, TS{t, s, "open"})
+			}
+			if b.busy[bkey{t, s}] != nil {
+				out = append(out, TS{t, s, "limit"})
 			}
 		}
 	}
@@ -215,6 +354,24 @@ type run struct {
 	finished bool
 	problems []map[string]any
 	faults   int
+
+	reqCtx       context.Context // the context given to StoreDocuments
+	cancelFn     context.CancelFunc
+	cancelLogged bool        // a `cancel` line has been written
+	cancelIssued bool        // a replica call has taken the job of ending the context
+	entered      map[int]int // index of a shard line -> replica calls of that shard.Bulk that have entered
+}
+
+// logCancel (r.mu held) writes the `cancel` line once
+func (r *run) logCancel() {
+	if r.cancelLogged {
+		return
+	}
+	r.cancelLogged = true
+	ln := newLine("cancel", r.sc.N, r.rep)
+	ln.Guard = !r.br.natural
+	ln.Open = r.br.snapshot(r.sc.Topo)
+	r.lines = append(r.lines, ln)
 }
 
 type groupKey struct {
@@ -263,15 +420,24 @@ func (f *fake) Bulk(ctx context.Context, in *storeapi.BulkRequest, _ ...grpc.Cal
 	if ok && r.lines[gi].Out[f.rp-1] != "-" {
 		ok = false // the same replica again: cannot be the same shard.Bulk
 	}
+	// a call begun on a request context that is done: like the gRPC stub, an error and nothing sent
+	ctxDone := r.reqCtx.Err() != nil
+	canceller := false
 	if !ok {
 		// first replica call of a new breaker.Execute (all replica calls of one shard.Bulk share its ctx)
 		r.epoch++
+		if ctxDone {
+			r.logCancel() // seen done before this shard call
+		}
+		if !ctxDone && !r.cancelIssued && r.sc.Cancel >= 2 && r.epoch == r.sc.Cancel-1 {
+			r.cancelIssued, canceller = true, true
+		}
 		if !r.br.natural {
 			var open []TS
 			if r.epoch < len(r.sc.Rejs) {
 				open = r.sc.Rejs[r.epoch]
 			}
-			r.br.apply(open, TS{f.t, f.s})
+			r.br.apply(open, bkey{f.t, f.s})
 		}
 		ln := newLine("shard", r.sc.N, r.rep)
 		ln.T, ln.S = f.t, f.s
@@ -281,10 +447,17 @@ func (f *fake) Bulk(ctx context.Context, in *storeapi.BulkRequest, _ ...grpc.Cal
 		gi = len(r.lines) - 1
 		r.groups[gk] = gi
 	}
+	r.entered[gi]++
+	if ctxDone {
+		r.logCancel() // first seen by a later replica call of a shard.Bulk that began on a live context
+	}
 	ln := &r.lines[gi]
 	out := r.sc.Pad
 	if k < len(f.script) {
 		out = f.script[k]
+	}
+	if ctxDone {
+		out = "err"
 	}
 	if out != "ok" {
 		r.faults++
@@ -303,6 +476,12 @@ func (f *fake) Bulk(ctx context.Context, in *storeapi.BulkRequest, _ ...grpc.Cal
 	variant := h32(r.sc.Real, f.t, f.s, f.rp, k) % 8
 	r.mu.Unlock()
 
+	if canceller {
+		r.endContext(gi)
+	}
+	if ctxDone {
+		return nil, status.FromContextError(r.reqCtx.Err()).Err()
+	}
 	if out == "ok" {
 		return &emptypb.Empty{}, nil
 	}
@@ -323,12 +502,43 @@ func (f *fake) Bulk(ctx context.Context, in *storeapi.BulkRequest, _ ...grpc.Cal
 	}
 }
 
+// endContext is run by the first replica call of the shard call after which the script ends the request
+// context: it lets the other replica calls of this shard.Bulk enter (they are started by one loop; "entered"
+// has not changed for 2 ms, at most 12 ms), then cancels / waits for the deadline, and logs.
+func (r *run) endContext(gi int) {
+	last, stable := -1, 0
+	for i := 0; i < 12 && stable < 2; i++ {
+		time.Sleep(time.Millisecond)
+		r.mu.Lock()
+		n := r.entered[gi]
+		r.mu.Unlock()
+		if n == last {
+			stable++
+		} else {
+			last, stable = n, 0
+		}
+	}
+	if r.sc.CKind == "deadline" {
+		select {
+		case <-r.reqCtx.Done():
+		case <-time.After(watchdog):
+		}
+	} else {
+		r.cancelFn()
+	}
+	r.mu.Lock()
+	if r.reqCtx.Err() != nil {
+		r.logCancel()
+	}
+	r.mu.Unlock()
+}
+
 // ---------------------------------------------------------------------------------- one run
 
 func hostName(t string, s, r int) string { return fmt.Sprintf("%s-%d-%d:9002", t, s, r) }
 
 func runOnce(br *breakers, sc *Script, rep int) (*run, bool) {
-	r := &run{sc: sc, rep: rep, br: br, groups: map[groupKey]int{}}
+	r := &run{sc: sc, rep: rep, br: br, groups: map[groupKey]int{}, entered: map[int]int{}}
 	seed := h32("payload", sc.N, rep, sc.Real)
 	r.count = int64(1 + seed%7)
 	r.docs = []byte(fmt.Sprintf("docs-%d-%d-%08x", sc.N, rep, seed))
@@ -362,7 +572,7 @@ func runOnce(br *breakers, sc *Script, rep int) (*run, bool) {
 
 	br.closeAll()
 	if !br.natural && len(sc.Rejs) > 0 {
-		br.apply(sc.Rejs[0], TS{})
+		br.apply(sc.Rejs[0], bkey{})
 	}
 	reset := newLine("reset", sc.N, rep)
 	reset.HS, reset.HR, reset.CS, reset.CR = sc.Topo.HS, sc.Topo.HR, sc.Topo.CS, sc.Topo.CR
@@ -372,8 +582,33 @@ func runOnce(br *breakers, sc *Script, rep int) (*run, bool) {
 
 	client := bulk.NewSeqDBClient(hot, cold, br.cfg, clients)
 
+	// the request context: Ingestor.ProcessDocuments gives one with the consts.BulkTimeout deadline, derived from
+	// the caller's.  Deadline scripts: it passes after the (e-1)-th shard call; each earlier shard call may take
+	// the breaker's time-out, the third attempt begins after a 100 ms back-off.
+	switch {
+	case sc.Cancel >= 1 && sc.CKind == "deadline":
+		d := -time.Millisecond
+		if sc.Cancel >= 2 {
+			d = time.Duration(sc.Cancel-1)*(breakerTimeout+10*time.Millisecond) + 120*time.Millisecond
+		}
+		r.reqCtx, r.cancelFn = context.WithDeadline(context.Background(), time.Now().Add(d))
+	case sc.Cancel >= 1:
+		r.reqCtx, r.cancelFn = context.WithCancel(context.Background())
+		if sc.Cancel == 1 {
+			r.cancelFn()
+		}
+	case seed%2 == 0:
+		r.reqCtx, r.cancelFn = context.WithTimeout(context.Background(), time.Hour)
+	default:
+		r.reqCtx, r.cancelFn = context.WithCancel(context.Background())
+	}
+	defer r.cancelFn()
+	if r.reqCtx.Err() != nil {
+		r.logCancel()
+	}
+
 	done := make(chan error, 1)
-	go func() { done <- client.StoreDocuments(context.Background(), int(r.count), r.docs, r.metas) }()
+	go func() { done <- client.StoreDocuments(r.reqCtx, int(r.count), r.docs, r.metas) }()
 	var err error
 	select {
 	case err = <-done:
@@ -387,6 +622,10 @@ func runOnce(br *breakers, sc *Script, rep int) (*run, bool) {
 	r.mu.Lock()
 	defer r.mu.Unlock()
 	r.finished = true
+	for _, p := range br.probs {
+		r.problem(fmt.Sprint(p["what"]), p)
+	}
+	br.probs = nil
 	ret := newLine("ret", sc.N, rep)
 	ret.Guard = !br.natural
 	ret.Res = "ok"
@@ -417,8 +656,8 @@ func runOnce(br *breakers, sc *Script, rep int) (*run, bool) {
 
 // ---------------------------------------------------------------------------------- child / parent
 
-func child(natural, progress bool, outPath string) int {
-	br := newBreakers(natural)
+func child(natural, progress bool, outPath string, maxConc int) int {
+	br := newBreakers(natural, maxConc)
 	out, err := os.Create(outPath)
 	if err != nil {
 		emit(map[string]any{"infra": "cannot create " + outPath + ": " + err.Error()})
@@ -464,7 +703,7 @@ func child(natural, progress bool, outPath string) int {
 					emit(map[string]any{"summary": true, "cases": cases, "evals": evals, "nontrivial": nontrivial, "corpora": 0, "aborted": true})
 					return 0
 				}
-				if r.faults > 0 || len(r.lines[0].Open) > 0 {
+				if r.faults > 0 || len(r.lines[0].Open) > 0 || r.cancelLogged {
 					nontrivial++
 				}
 				for _, ln := range r.lines {
@@ -491,13 +730,14 @@ func main() {
 	outPath := flag.String("out", "", "trace file to write (ndjson)")
 	isChild := flag.Bool("child", false, "internal: run scripts from stdin in this process")
 	natural := flag.Bool("natural", false, "internal: breakers trip by themselves")
+	maxConc := flag.Int("maxconc", 1, "internal: MaxConcurrent of the breakers (forced mode)")
 	flag.Parse()
 	if *outPath == "" {
 		emit(map[string]any{"infra": "-out is required"})
 		os.Exit(2)
 	}
 	if *isChild {
-		os.Exit(child(*natural, *progress, *outPath))
+		os.Exit(child(*natural, *progress, *outPath, *maxConc))
 	}
 
 	// parent: split the scripts over children (forced and natural scripts go to different processes)
@@ -532,6 +772,7 @@ func main() {
 		natural bool
 		lines   [][]byte
 		out     string
+		maxConc int
 	}
 	var jobs []job
 	split := func(lines [][]byte, natural bool, n int) {
@@ -549,7 +790,7 @@ func main() {
 			parts[i%n] = append(parts[i%n], l)
 		}
 		for _, p := range parts {
-			jobs = append(jobs, job{natural, p, fmt.Sprintf("%s.part%d", *outPath, len(jobs))})
+			jobs = append(jobs, job{natural, p, fmt.Sprintf("%s.part%d", *outPath, len(jobs)), 1 + len(jobs)%3})
 		}
 	}
 	nn := 0
@@ -572,7 +813,7 @@ func main() {
 		wg.Add(1)
 		go func(j job) {
 			defer wg.Done()
-			args := []string{"-child", "-out", j.out}
+			args := []string{"-child", "-out", j.out, "-maxconc", fmt.Sprint(j.maxConc)}
 			if j.natural {
 				args = append(args, "-natural")
 			}
